@@ -160,6 +160,12 @@ def b1(cx):
                 cx.note(fn, detail=f"{spec}.{mname}: no slice on {sorted(missing)} (form not read by the slice rule; GPU class: not decided)")
                 nsl += len(missing)
                 continue
+            if missing and spec.startswith("context_cpu"):
+                # a CPU primitive written in a form the slice rule does not read (through a helper, a memoryview ...):
+                # its extents are decided by evaluation (B1e), what it may keep by the alias analysis (NC2)
+                cx.note(fn, detail=f"{spec}.{mname}: no slice on {sorted(missing)} (form not read by the slice rule; decided by B1e / NC2)")
+                nsl += len(missing)
+                continue
             cx.need(not missing, f"{spec}.{mname}: no slice on {sorted(missing)} found (primitive rewritten?)")
         cx.need(nsl >= MIN_SLICES[spec], f"{spec}: only {nsl} bounded slices found, expected >= {MIN_SLICES[spec]}")
     # frombuffer form of to_nplike (CPU kinds)
